@@ -295,8 +295,30 @@ pub fn run_process_case(bin: &Path, build: &str, ctext: &[u8], ftext: Option<&[u
     let _ = std::fs::remove_dir_all(&dir);
 }
 
+/// a very large but valid file (8760 steps, dozens of lines, several MB): bounded progress on big inputs
+fn huge_text(r: &mut Rng) -> String {
+    let mut o = GenOpts::default();
+    o.steps = Some(8760);
+    o.aux = Tri::Always;
+    o.aux_multi = true;
+    o.cogen = Tri::Always;
+    o.pv = Tri::Always;
+    let mut spec = gen::building(r, &o);
+    // repeat the lines a few times (same tags: they add up)
+    let extra: Vec<crate::spec::Line> = spec.lines.iter().filter(|l| !matches!(l, crate::spec::Line::Aux { .. } | crate::spec::Line::Out { .. })).cloned().collect();
+    for _ in 0..r.usize(3) {
+        spec.lines.extend(extra.clone());
+    }
+    spec.to_text()
+}
+
 fn process_case(ctx: &Ctx, r: &mut Rng, corpus: &Corpus, t: &mut Tally) {
-    let (ctext, ftext, kind) = gen_texts(r, corpus);
+    let (mut ctext, ftext, mut kind) = gen_texts(r, corpus);
+    if ctx.thorough() && r.chance(1, 400) {
+        ctext = huge_text(r);
+        kind = "huge_valid";
+        t.add("huge_input_bytes", ctext.len() as u64);
+    }
     let mut cbytes = ctext.into_bytes();
     if r.chance(1, 40) {
         // not UTF-8 at all: must end with the documented I/O error code
